@@ -314,7 +314,7 @@ func TestC18(t *testing.T) {
 	start := time.Now()
 	bound, maxExec := 2, 1200
 	if mc.Tier() == "thorough" {
-		bound, maxExec = 3, 60000
+		bound, maxExec = 3, 12000
 	}
 	nw := workers()
 	reps := make([][]e5Report, nw)
@@ -417,6 +417,9 @@ func c18Watchers() ([]mc.Violation, map[string]any) {
 	_ = json.Unmarshal(b, &rep)
 	var vs []mc.Violation
 	for _, v := range rep.Violations {
+		if i := strings.Index(v.Key, "block_dispatcher_dead:"); i >= 0 {
+			vs = append(vs, mc.Violation{Property: "C18", Key: "deadlock:watcher:" + v.Key[:i] + v.Key[i:], Detail: v.Detail, History: v.History, Scenario: "watcher:" + v.Scenario})
+		}
 		if i := strings.Index(v.Key, "goroutine_waits_for_watcher_lock_forever:"); i >= 0 {
 			vs = append(vs, mc.Violation{Property: "C18", Key: "deadlock:watcher:" + v.Key[i+len("goroutine_waits_for_watcher_lock_forever:"):], Detail: v.Detail, History: v.History, Scenario: "watcher:" + v.Scenario})
 		}
